@@ -169,6 +169,13 @@ def run_c15(R, tier, rng):
         if guarded(mk) is None: continue
         for i in sorted({0, n - 1, -1, -n, n // 2, -(n // 2) - 1} & set(range(-n, n))):
             C.cmp(f"int {tag} [{i}]", "int", nt, lambda: [key(mk()[i])], lambda: [key(A[i])], py=f"RunLengthArray.from_array(np.array({a!r}, dtype='{dt}'))[{i}]")
+        # the same selectors wrapped in a tuple / with an Ellipsis (numpy spellings of the same index)
+        i0 = n // 2
+        C.cmp(f"tuple-int {tag} [({i0},)]", "int/tuple", nt, lambda: [key(mk()[(i0,)])], lambda: [key(A[(i0,)])], py=f"rla[({i0},)]  rla = from_array({a!r}, {dt})")
+        C.cmp(f"ellipsis-int {tag} [..., {-1}]", "int/ellipsis", nt, lambda: [key(mk()[..., -1])], lambda: [key(A[-1])], py=f"rla[..., -1]  rla = from_array({a!r}, {dt})")
+        C.cmp(f"ellipsis {tag} [...]", "ellipsis", nt, lambda: rl_obs(mk()[...], 1, with_canon=False), lambda: spec_rl(A[...], canon=False), py=f"rla[...]  rla = from_array({a!r}, {dt})")
+        C.cmp(f"tuple-slice {tag} [(1::2,)]", "slice/tuple", nt, lambda: rl_obs(mk()[(slice(1, None, 2),)], 1, with_canon=False), lambda: spec_rl(A[(slice(1, None, 2),)], canon=False),
+              py=f"rla[(slice(1, None, 2),)]  rla = from_array({a!r}, {dt})")
         if n > 127:       # narrow index dtypes on a long array
             idx8 = [-1, 3, -128, 127, n % 100]
             C.cmp(f"int8-array {tag} {idx8}", "int-array/int8", nt, lambda: dense_obs(mk()[np.array(idx8, dtype=np.int8)]), lambda: dense_obs(A[np.array(idx8, dtype=np.int8)]), py=f"rla[np.array({idx8}, dtype=np.int8)]  (length {n})")
